@@ -229,8 +229,12 @@ def evaluate__mod_operator(self: XPathToken, context: ta.ContextType = None) \
         raise self.error('FORG0006', err) from None
     except OverflowError as err:
         raise self.error('FOAR0002', err) from None
-    except (ZeroDivisionError, decimal.InvalidOperation):
+    except ZeroDivisionError:
         raise self.error('FOAR0001') from None
+    except decimal.InvalidOperation:
+        # Raised for a zero divisor but also when the quotient
+        # has more digits than the precision of the decimal context.
+        raise self.error('FOAR0001' if op2 == 0 else 'FOAR0002') from None
 
 
 # Resolve the intrinsic ambiguity of some infix operators
